@@ -1,5 +1,6 @@
 import MpdProofs.Lemmas.Skeleton
 import MpdProofs.Lemmas.LoopInv
+import MpdProofs.Lemmas.StreamRun
 /-!
 # C04 — subsystem-change notifications are delivered exactly once and in order
 
@@ -8,6 +9,11 @@ import MpdProofs.Lemmas.LoopInv
   changes reported by the server, in order — nothing invented, nothing duplicated, nothing lost.
 * **after fix F1** (`C04_all_changed_lines`): one event per `changed` line of an idle reply, in wire
   order (the unfixed code delivered only the first).
+* **byte level, all runs** (`C04_events_from_stream`, `C04_drop_is_silent`): along every run of the
+  task model after the greeting — any segmentation of the deliveries, any `select!` order, requests
+  arriving (and receive futures being dropped) at any point — the events delivered are, in order,
+  exactly the `changed` values of the idle replies among the responses decoded from the delivered
+  stream; each response is consumed exactly once (`Loop.run_decodes`, `Loop.step_effect`).
 * **names**: `Subsystem.fromName` preserves every name verbatim (C20: `C20_subsystem_name`).
 
 FIXED FINDING K3 (fix F12): at BYTE level the property was false of the code: `receive()` was not
@@ -29,6 +35,40 @@ theorem C04_all_changed_lines (s : St) (f : AFrame) :
 
 example : changedValues { fields := [(str "changed", str "player"), (str "x", str "y"), (str "changed", str "mixer")] } =
     [str "player", str "mixer"] := by decide +kernel
+
+/-- **byte level, all runs** -/
+theorem C04_events_from_stream (s0 s : St) (D : Bytes) (h0 : AfterGreeting s0) (hr : Run s0 s D) :
+    ∃ rs, (∀ q, Decodes .initial (D ++ q) rs (future s q)) ∧ Attr rs (responses s.obs) (eventsOf s.obs) :=
+  (run_decodes s0 s D h0 hr).2
+
+/-- dropping the live receive future because a request arrived changes nothing about what the
+connection will decode, and delivers nothing (this is where the unfixed code lost events) -/
+theorem C04_drop_is_silent (s : St) (σ : Builder.BState) (hpc : s.pc = .idling σ)
+    (hq : s.queue ≠ []) (hnp : recvPollable s = false) :
+    ∃ s', step s false = some s' ∧ (∀ q, future s' q = future s q) ∧
+      responses s'.obs = responses s.obs ∧ eventsOf s'.obs = eventsOf s.obs := by
+  have hstep : step s false = some (startCancel (dropFuture s σ)) := by
+    unfold step
+    rw [hpc]
+    have : s.queue.isEmpty = false := by cases h : s.queue <;> simp_all
+    simp [this, hnp]
+  refine ⟨_, hstep, ?_⟩
+  cases step_effect s _ false (by rw [hpc]; simp) hstep with
+  | silent hf hq' => exact ⟨hf, hq'.1, hq'.2⟩
+  | consumed r hf hσ hd =>
+    -- impossible: nothing was polled; but the statement follows anyway from the sub-routine lemmas
+    have hs := startCancel_same_fresh (dropFuture s σ)
+    have hq' := quiet_startCancel (dropFuture s σ)
+    refine ⟨fun q => ?_, hq'.1, hq'.2⟩
+    unfold future
+    rw [resid_sub hs]
+    simp [resid, σcur, hpc, dropFuture]
+  | broken it hit hp hq' =>
+    have hs := startCancel_same_fresh (dropFuture s σ)
+    refine ⟨fun q => ?_, hq'.1, hq'.2⟩
+    unfold future
+    rw [resid_sub hs]
+    simp [resid, σcur, hpc, dropFuture]
 
 /-- the former K3 schedule (model): an idle reply arrives in two pieces and a request is issued in
 between; the `changed: options` line already parsed by the dropped receive future is carried over
